@@ -123,4 +123,150 @@ Section Ext.
       + exists s'. split; [exact E1|]. cbn [rev]. rewrite <- !app_assoc. cbn [app].
         split; [exact P2|]. autorewrite with pst in V2, C2. auto.
   Qed.
+
+  (* ---------------------------------------------------------------- name finished, value follows *)
+  Lemma path_add_nosep E J n F K :
+    existsb (Z.eqb SEP) n = false ->
+    exists p1, path_add (mkPath E (J ++ rev n) (len (J ++ rev n)) F K true) (len n) = (0, p1) /\
+               pelems p1 = E ++ [n] /\ pbuf p1 = true.
+  Proof.
+    intros NS. unfold path_add. cbn [pbuf negb plen pelems].
+    assert (L : len n <= len (J ++ rev n)) by (unfold len; rewrite app_length, rev_length; lia).
+    pose proof (len_nonneg n). zb. cbn [orb].
+    rewrite firstn_ppost, NS. eexists. split; [reflexivity|]. split; reflexivity.
+  Qed.
+
+  Lemma option_assign_value adderr d n v rest s E J F K :
+    pth s = mkPath E (J ++ rev n) (len (J ++ rev n)) F K true -> valid s = len n -> n <> [] ->
+    ncheck_go n true take = 0 -> existsb (Z.eqb SEP) n = false -> wf_value v = true ->
+    exists s',
+      option_assign f take adderr (hws (d_mid2 d) ++ print_value d v ++ hws (d_trail d) ++ tail_comment d ++ 10 :: rest) s
+      = ((match v with [] => 3 | _ => 7 end), rest, s') /\
+      pelems (pth s') = E ++ [n] /\ pcurr s' = pcurr s /\ valid s' = len v /\
+      (v <> [] -> post_read s' (len v) = Some v).
+  Proof.
+    intros HP HV NE NK NS WV. unfold option_assign.
+    rewrite (ncheck_name s _ _ _ _ _ take HP HV NE), NK. zb.
+    rewrite HP, HV. destruct (path_add_nosep E J n F K NS) as (p1 & PA & PE & PB).
+    rewrite PA. zb. rewrite (invalidate_buf p1 PB), PE.
+    set (s4 := mkPst _ _ _ _ _). rewrite parse_data_ext.
+    destruct (parse_data_value d v rest s4 (E ++ [n]) (pfirst p1) WV) as (s5 & E5 & Q1 & Q2 & Q3 & Q4 & Q5);
+      [reflexivity|reflexivity|].
+    rewrite E5. pose proof (len_nonneg v).
+    exists s5. subst s4. cbn [pcurr] in Q3.
+    destruct v as [|y v0].
+    - change (len []) with 0. zb. repeat split; auto; try (intros X; now destruct X).
+    - assert (LP : 0 < len (y :: v0)) by (rewrite len_cons; pose proof (len_nonneg v0); lia).
+      zb. repeat split; auto.
+  Qed.
+
+  (* well-formed names of the styles without white space in names *)
+  Record wfo (n : list Z) : Prop := mkWfo {
+    wo_chars : Forall (fun c => onc c = true) n;
+    wo_ne : n <> [];
+    wo_check : ncheck_go n true take = 0;
+    wo_len : len n <= IDENT_MAX }.
+
+  Lemma onc_nosep n : Forall (fun c => onc c = true) n -> existsb (Z.eqb SEP) n = false.
+  Proof.
+    induction 1 as [|c n Hc _ IH]; [reflexivity|]. cbn [existsb]. rewrite IH, orb_false_r.
+    apply onc_spec in Hc. unfold SEP. apply Z.eqb_neq. lia.
+  Qed.
+
+  (* option_loop from the second character of the name (or the assign character) on *)
+  Lemma option_name_rest d n0 n' v rest s E F c1 :
+    wfo (n0 :: n') -> wf_value v = true ->
+    (* c1 is the current character: already stored behind n0 *)
+    pth s = mkPath E [c1; n0] 2 F true true -> valid s = 1 ->
+    forall tl0, tl0 = hws (d_mid2 d) ++ print_value d v ++ hws (d_trail d) ++ tail_comment d ++ 10 :: rest ->
+    (n' = [] /\ c1 = 61 \/ exists n'', n' = c1 :: n'') ->
+    forall l, (match n' with [] => l = tl0 | _ :: n'' => l = n'' ++ hws (d_mid1 d) ++ 61 :: tl0 end) ->
+    exists s',
+      option_loop f take c1 l s = ((match v with [] => 3 | _ => 7 end), rest, s') /\
+      pelems (pth s') = E ++ [n0 :: n'] /\ pcurr s' = pcurr s /\ valid s' = len v /\
+      (v <> [] -> post_read s' (len v) = Some v).
+  Proof.
+    intros [NC NE NK NLEN] WV HP HV tl0 ET CS l EL.
+    pose proof (onc_nosep _ NC) as NS.
+    destruct CS as [[-> ->]|[n'' ->]].
+    - (* one character name, the assign character is current *)
+      subst l. rewrite option_step_assign.
+      destruct (option_assign_value MissingBuffer d [n0] v rest s E [61] F true) as (s' & E1 & Q); auto.
+      subst tl0. exists s'. split; [exact E1|exact Q].
+    - subst l. pose proof (Forall_inv NC) as H0. pose proof (Forall_inv_tail NC) as NC'. cbn beta in H0.
+      rewrite !len_cons in NLEN. unfold IDENT_MAX in NLEN. pose proof (len_nonneg n'').
+      assert (HP' : pth s = mkPath E (c1 :: [n0]) (len (c1 :: [n0])) F true true) by exact HP.
+      destruct (hws (d_mid1 d)) as [|b0 bs] eqn:HB.
+      + cbn [app].
+        destruct (opt_scan n'' c1 s 61 tl0 E [n0] F NC') as (s2 & E2 & P2 & V2 & C2); [lia|exact HP'| |].
+        { rewrite !len_cons, len_nil. unfold VALID_MOD. lia. }
+        rewrite E2, option_step_assign.
+        destruct (option_assign_value MissingBuffer d (n0 :: c1 :: n'') v rest s2 E [61] F true) as (s' & E1 & Q1 & Q2 & Q3); auto.
+        * rewrite P2. cbn [rev app]. rewrite <- !app_assoc. reflexivity.
+        * rewrite V2. unfold len. rewrite app_length, rev_length. cbn [length]. lia.
+        * subst tl0. exists s'. split; [exact E1|]. split; [exact Q1|]. split; [congruence|exact Q3].
+      + assert (FB : Forall (fun c => hspace c = true) (b0 :: bs)) by (rewrite <- HB; apply hws_hspaces).
+        pose proof (Forall_inv FB) as Hb. cbn beta in Hb. apply hspace_spec in Hb as Hb'.
+        cbn [app].
+        destruct (opt_scan n'' c1 s b0 (bs ++ 61 :: tl0) E [n0] F NC') as (s2 & E2 & P2 & V2 & C2); [lia|exact HP'| |].
+        { rewrite !len_cons, len_nil. unfold VALID_MOD. lia. }
+        rewrite E2.
+        destruct (opt_scan_blanks bs b0 s2 61 tl0 E (rev n'' ++ [c1; n0]) F FB) as (s3 & E3 & P3 & V3 & C3); [lia|exact P2|].
+        rewrite E3, option_step_assign.
+        destruct (option_assign_value MissingBuffer d (n0 :: c1 :: n'') v rest s3 E (61 :: rev bs ++ [b0]) F true) as (s' & E1 & Q1 & Q2 & Q3); auto.
+        * rewrite P3. cbn [rev app]. rewrite <- !app_assoc. reflexivity.
+        * rewrite V3, V2. unfold len. rewrite app_length, rev_length. cbn [length]. lia.
+        * subst tl0. exists s'. split; [exact E1|]. split; [exact Q1|]. split; [congruence|exact Q3].
+  Qed.
+
+  (* mpt_parse_option entered with the first name character stored and valid *)
+  Lemma option_core (a : allow) d n0 n' v rest s0 E F :
+    take = aopt a -> wfo (n0 :: n') -> wf_value v = true ->
+    pth s0 = mkPath E [n0] 1 F true true -> valid s0 = 1 ->
+    exists s',
+      parse_option f a (n' ++ hws (d_mid1 d) ++ 61 ::
+                        hws (d_mid2 d) ++ print_value d v ++ hws (d_trail d) ++ tail_comment d ++ 10 :: rest) s0
+      = ((match v with [] => 3 | _ => 7 end), rest, s') /\
+      pelems (pth s') = E ++ [n0 :: n'] /\ pcurr s' = 11 /\ valid s' = len v /\
+      (v <> [] -> post_read s' (len v) = Some v).
+  Proof.
+    intros ET WN WV HP HV.
+    set (tl0 := hws (d_mid2 d) ++ print_value d v ++ hws (d_trail d) ++ tail_comment d ++ 10 :: rest).
+    assert (OS : ostart f = 0) by (destruct DF as (A & _); exact A).
+    unfold parse_option, nextvis. rewrite nextvis_go_ext.
+    destruct n' as [|n1 n''].
+    - cbn [app]. destruct (nv_ws fd _ (hws_spaces (d_mid1 d)) (61 :: tl0) s0) as (s1 & (S1 & S2 & S3) & E1).
+      rewrite E1, nv_vis by (reflexivity || lia). zb. cbn [negb andb].
+      rewrite <- ET.
+      assert (P1 : pth (with_curr (addch (tick s1 61) 61) (Z.lor POption PName)) = mkPath E [61; n0] 2 F true true).
+      { rewrite pth_with_curr, pth_addch, pth_tick, S1, HP. reflexivity. }
+      assert (V1 : valid (with_curr (addch (tick s1 61) 61) (Z.lor POption PName)) = 1).
+      { rewrite valid_with_curr, valid_addch, valid_tick, S2. exact HV. }
+      destruct (option_name_rest d n0 [] v rest _ E F 61 WN WV P1 V1 tl0 eq_refl (or_introl (conj eq_refl eq_refl)) tl0 eq_refl)
+        as (s' & E2 & Q1 & Q2 & Q3 & Q4).
+      exists s'. rewrite pcurr_with_curr in Q2. auto.
+    - cbn [app].
+      pose proof (Forall_inv (Forall_inv_tail (wo_chars _ WN))) as H1. cbn beta in H1. apply onc_spec in H1 as H1'.
+      rewrite nv_vis; [|lia|tauto|lia]. zb. cbn [negb andb].
+      rewrite <- ET.
+      assert (P1 : pth (with_curr (addch (tick s0 n1) n1) (Z.lor POption PName)) = mkPath E [n1; n0] 2 F true true).
+      { rewrite pth_with_curr, pth_addch, pth_tick, HP.
+        cbn [path_addchar pbuf rpost pkeep negb pelems plen pfirst]. now rewrite byte_of_small by lia. }
+      assert (V1 : valid (with_curr (addch (tick s0 n1) n1) (Z.lor POption PName)) = 1).
+      { now rewrite valid_with_curr, valid_addch, valid_tick. }
+      destruct (option_name_rest d n0 (n1 :: n'') v rest _ E F n1 WN WV P1 V1 tl0 eq_refl
+                  (or_intror (ex_intro _ n'' eq_refl)) (n'' ++ hws (d_mid1 d) ++ 61 :: tl0) eq_refl)
+        as (s' & E2 & Q1 & Q2 & Q3 & Q4).
+      exists s'. rewrite pcurr_with_curr in Q2. auto.
+  Qed.
+
+  (* the first name character, stored from the blank state, then valid *)
+  Lemma first_char_state s E c :
+    ready s E -> 0 < c < 256 ->
+    pth (set_valid (addch s c)) = mkPath E [c] 1 (pfirst (pth s)) true true /\ valid (set_valid (addch s c)) = 1.
+  Proof.
+    intros RD B. pose proof (ready_addch s E c RD) as PA.
+    destruct (set_valid_path (addch s c) E c [] 1 (pfirst (pth s)) false) as [P V]; [apply PA; lia|unfold VALID_MOD; lia|].
+    auto.
+  Qed.
 End Ext.
